@@ -181,6 +181,14 @@ def replay_dir(ctx, rd):
     """./check <ID> --replay <dir>"""
     from . import build
     meta = json.load(open(os.path.join(rd, "replay.json")))
+    if meta.get("tsan"):
+        exe = os.path.join(build.ensure_lib("tsan"), "harness", meta["harness"])
+        wd = os.path.join(ctx.outdir, "replay")
+        lines = _vs_script(meta["policy"], meta["scenario"]) + ["END"]
+        sp, tp, evs, died, err = run_harness(exe, lines, wd, "replay", env=TSAN_ENV)
+        if any(e.get("e") == "Died" and e.get("sig") == 166 for e in evs):
+            ctx.violation("replay: data race reported again", rd)
+        return
     if meta.get("vsched"):
         return replay_vsched(ctx, rd, meta)
     exe = os.path.join(build.ensure_lib(), "harness", meta["harness"])
@@ -424,3 +432,80 @@ def replay_vsched(ctx, rd, meta):
     verdict = _vs_judge(ex, meta["spec_dir"], meta["module"], meta["cfg"], wd, "replay", 900)
     if verdict:
         ctx.violation("replay: " + verdict, rd)
+
+
+# ----------------------------------------------------------------------------------------------------------------
+# data-race scan: the same scenarios on a ThreadSanitizer build of the library under the controlled scheduler.
+# The serialising scheduler cannot exhibit the effect of a race on plain memory (no schedule point inside), so a
+# missing or wrong lock is reported by the happens-before detector instead. The baton is invisible to TSan; the
+# modelled mutexes are annotated (harness/vsched). A report = the child exits with TSan's exit code (Died sig 166).
+
+TSAN_ENV = {"TSAN_OPTIONS": "halt_on_error=1:exitcode=66:report_signal_unsafe=0:second_deadlock_stack=0:history_size=4",
+            "TZ": "UTC"}
+
+
+def race_scan(ctx, harness_name, src, blocks, *, label="race", nbatch=None, timeout=900, max_confirm=2):
+    from . import build
+    blocks = [(p, sc) for p, sc in blocks if not p.startswith("dfs")]
+    if not blocks:
+        return 0
+    exe = build.build_harness(harness_name + "_tsan", [src], cflags=["-Wno-unused-function"], wrap=True, variant="tsan")
+    nbatch = nbatch or min(NCPU, max(1, len(blocks) // 10))
+    batches = _chunks(blocks, nbatch)
+    wd = os.path.join(ctx.outdir, label)
+    shutil.rmtree(wd, ignore_errors=True)
+    os.makedirs(wd)
+
+    def one(bi):
+        lines = []
+        for pol, sc in batches[bi]:
+            lines += _vs_script(pol, sc)
+        lines.append("END")
+        sp, tp, evs, died, err = run_harness(exe, lines, wd, "b%03d" % bi, timeout=timeout, env=TSAN_ENV)
+        if died:
+            return ("runner-died", bi, died, err)
+        order = []
+        cur = None
+        for e in evs:
+            if e.get("e") == "Reset":
+                cur = {"policy": e.get("sched", ""), "events": [], "reset": e}
+                order.append(cur)
+            elif e.get("e") == "BatchEnd":
+                cur = None
+            elif cur is not None:
+                cur["events"].append(e)
+        _assign_blocks(order, batches[bi])
+        racy = [x for x in order if any(e.get("e") == "Died" and e.get("sig") == 166 for e in x["events"])]
+        return ("done", bi, (len(order), racy), err)
+
+    n = 0
+    with cf.ThreadPoolExecutor(max_workers=min(NCPU, len(batches))) as pool:
+        results = list(pool.map(one, range(len(batches))))
+    for kind, bi, info, err in results:
+        if kind == "runner-died":
+            raise CheckError("race scan runner failed on batch %d: %s" % (bi, info))
+        cnt, racy = info
+        n += cnt
+        for ex in racy:
+            if len([v for v in ctx.violations if "data race" in v[0]]) >= max_confirm:
+                break
+            rd = ctx.new_replay_dir(label)
+            lines = _vs_script(ex["policy"], ex["scenario"]) + ["END"]
+            sp, tp, evs, died, err2 = run_harness(exe, lines, rd, "replay", timeout=timeout, env=TSAN_ENV)
+            again = any(e.get("e") == "Died" and e.get("sig") == 166 for e in evs)
+            rep = ""
+            for src_err in (err2, err):
+                i = src_err.find("WARNING: ThreadSanitizer")
+                if i >= 0:
+                    rep = src_err[i:i + 3000]
+                    break
+            open(os.path.join(rd, "tsan_report.txt"), "w").write(rep)
+            json.dump({"property": ctx.pid, "vsched": True, "tsan": True, "harness": os.path.basename(exe), "policy": ex["policy"],
+                       "scenario": ex["scenario"], "what": "data race"}, open(os.path.join(rd, "replay.json"), "w"), indent=1)
+            if not again:
+                raise CheckError("ThreadSanitizer report did not reproduce in isolation; replay dir %s" % rd)
+            first = [l.strip() for l in rep.splitlines() if l.strip().startswith("#0") or "data race" in l][:3]
+            ctx.violation("data race on library state (ThreadSanitizer, happens-before via the modelled mutexes) in scenario "
+                          "%s under '%s': %s" % (ex["scenario"], ex["policy"][:60], " | ".join(first)), rd)
+    ctx.extra["race_scan_executions"] = ctx.extra.get("race_scan_executions", 0) + n
+    return n
